@@ -33,9 +33,7 @@ class GetCurrentMode(Contract):
         return (ok(g) and result == g.last_resp[1]) or (classify(g) == K_OTHER and result == 0xFF)
     ensures = [exch, mode_is_answer]
 
-    def bad_mode(g): return ok(g) and not (g.last_resp[1] == 2 or g.last_resp[1] == 3 or g.last_resp[1] == 4 or g.last_resp[1] == 0xFF)
-    raises = PROPAGATE(exch, skip=[ERR_DONGLE])
-    raises["ValueError"] = Exc(args=[STR_], post=[exch, bad_mode])
+    raises = PROPAGATE(exch, skip=[ERR_DONGLE])    # a mode byte outside {2,3,4} is excluded by A-DEV-WF
 
 
 @contract("ledger/hsm2dongle.py", "HSM2Dongle.echo", serves=ALL)
@@ -125,10 +123,7 @@ class ResetAdvance(Contract):
     def exch(g, old): return one(g, old, apdu_of(CMD_RESET_AB, bytes([0x01])))
     def done(result, g): return ok(g) and result and g.last_resp[2] == 0x02
     ensures = [exch, done]
-    # a wrong op in the answer is a device outside its protocol: HSM2DongleError
-    def x_other_or_bad_answer(g): return classify(g) == K_OTHER or (ok(g) and g.last_resp[2] != 0x02)
-    raises = PROPAGATE(exch, skip=[ERR_DONGLE])
-    raises[ERR_DONGLE] = Exc(args=[STR_], post=[exch, x_other_or_bad_answer])
+    raises = PROPAGATE(exch)         # a wrong op in the answer is excluded by A-DEV-WF
 
 
 # ---- PIN -----------------------------------------------------------------------------------------
